@@ -187,6 +187,9 @@ OnlineSet == {c \in Clients : sess[c] = "online"}
 ForwardBy(rt, e, S, on) ==
     (IF Matches(ObsFilter.n, rt) THEN {[to |-> "obs", t |-> e.t, p |-> e.p, q |-> e.q]} ELSE {})
     \cup (IF Matches(Obs2Filter.n, rt) THEN {[to |-> "obs2", t |-> e.t, p |-> e.p, q |-> e.q]} ELSE {})
+    \* the federation plugin (outermost wrapper) has one peer that announced "#": whatever is forwarded at all is queued
+    \* for that peer too, exactly as the inner hooks left it - and nothing that they rejected or dropped
+    \cup {[to |-> "fed", t |-> e.t, p |-> e.p, q |-> e.q]}
     \cup {[to |-> s.c, t |-> e.t, p |-> e.p, q |-> Min(s.q, e.q)] : s \in {x \in S : x.c \in on /\ Matches(x.f, rt)}}
 Forward(e, S, on) == ForwardBy(e.t, e, S, on)
 
@@ -372,7 +375,7 @@ RewriteIsWhatIsSeen ==
              /\ Matches(ObsFilter.n, m2.t) => [to |-> "obs", t |-> m2.t, p |-> m2.p, q |-> m2.q] \in last'.dlv
              /\ \A s \in subs : (s.c \in OnlineSet /\ Matches(s.f, m2.t)) => \E d \in last'.dlv : d.to = s.c
              /\ Matches(Obs2Filter.n, m2.t) <=> [to |-> "obs2", t |-> m2.t, p |-> m2.p, q |-> m2.q] \in last'.dlv
-             /\ \A d \in last'.dlv : d.to \notin {"obs", "obs2"} => \E s \in subs : s.c = d.to /\ Matches(s.f, m2.t)
+             /\ \A d \in last'.dlv : d.to \notin {"obs", "obs2", "fed"} => \E s \in subs : s.c = d.to /\ Matches(s.f, m2.t)
              /\ (m2.r /\ m2.p # "") => [t |-> m2.t, p |-> m2.p, q |-> m2.q] \in ret'
              /\ (m2.r /\ m2.p = "") => ~\E x \in ret' : x.t = m2.t
              /\ ~m2.r => ret' = ret
